@@ -16,6 +16,7 @@ import gen
 from cases import CaseSet, rng_for, close
 
 PID = "C17"
+POOL = {"uniform": [], "normal": [], "dirichlet": []}   # standardised samples pooled over the run (moment tests at the end)
 
 
 def rand_init(rng, shape):
@@ -31,7 +32,7 @@ def rand_init(rng, shape):
         ax = rng.randrange(rank)
         a = ax if rng.random() < 0.5 else ax - rank
         alpha = rng.choice([1.0, 0.5, [float(rng.choice([1, 2, 3])) for _ in range(shape[ax])]])
-        return kind, DirichletInitializer(alpha, axis=a), {"axis": ax, "declared_axis": a}
+        return kind, DirichletInitializer(alpha, axis=a), {"axis": ax, "declared_axis": a, "alpha": alpha}
     if kind == "uniform":
         lo = gen.dy(rng, 0, 4, 4)
         hi = lo + gen.dy(rng, 1, 4, 4)
@@ -85,13 +86,24 @@ def check_tensor(rep, desc, t, kind, info, learnable, val, when, pt):
         if not np.allclose(s, 1.0, atol=1e-9) or np.any(val < 0):
             rep.violation("init-dirichlet-axis", "Dirichlet samples do not sum to one along the declared axis",
                           {**tag, "observed_sums": s.tolist()})
+        else:
+            al = info.get("alpha")
+            n_ax = val.shape[info["axis"]]
+            al = np.array(al if isinstance(al, list) else [al] * n_ax, dtype=float)
+            a0 = al.sum()
+            mean = al / a0
+            sd = np.sqrt(al * (a0 - al) / (a0 * a0 * (a0 + 1)))
+            x = np.moveaxis(val, info["axis"], -1)
+            POOL["dirichlet"].extend(((x - mean) / sd).ravel().tolist())
     elif kind == "uniform":
         if np.any(val < info["a"]) or np.any(val > info["b"]):
             rep.violation("init-uniform-bounds", "uniform samples outside [a, b]", {**tag, "observed": val.tolist()})
+        POOL["uniform"].extend(((val - info["a"]) / (info["b"] - info["a"])).ravel().tolist())
     elif kind == "normal":
         z = (val - info["mean"]) / info["stddev"]
         if np.any(np.abs(z) > 7.0):
             rep.violation("init-normal-moments", "normal samples more than 7 standard deviations from the mean", {**tag, "observed": val.tolist()})
+        POOL["normal"].extend(z.ravel().tolist())
 
 
 def one_case(rep, cs, seed, i):
@@ -153,3 +165,23 @@ def run(rep, tier, seed, replay=None):
     for i in range(n):
         one_case(rep, cs, seed, i)
     cs.run(shard=max(20, n // 10))
+    # pooled moment tests (6-sigma thresholds: false-alarm probability below 1e-8)
+    z = np.array(POOL["normal"])
+    if z.size >= 200:
+        if abs(z.mean()) > 6 / np.sqrt(z.size) or abs(z.var() - 1) > 6 * np.sqrt(2 / z.size):
+            rep.violation("init-normal-pooled-moments", "pooled normal initialisations do not have the declared mean / standard deviation",
+                          {"n": int(z.size), "mean_z": float(z.mean()), "var_z": float(z.var())})
+    u = np.array(POOL["uniform"])
+    if u.size >= 200:
+        if abs(u.mean() - 0.5) > 6 * np.sqrt(1 / (12 * u.size)) or abs(u.var() - 1 / 12) > 6 * np.sqrt(1 / (180 * u.size)):
+            rep.violation("init-uniform-pooled-moments", "pooled uniform initialisations are not uniform on [a, b]",
+                          {"n": int(u.size), "mean_u": float(u.mean()), "var_u": float(u.var())})
+    d = np.array(POOL["dirichlet"])
+    if d.size >= 400:
+        # components of one draw are dependent: use a loose 8-sigma bound on the pooled standardised mean
+        if abs(d.mean()) > 8 / np.sqrt(d.size):
+            rep.violation("init-dirichlet-pooled-mean", "pooled Dirichlet initialisations do not have the means alpha_i / sum(alpha)",
+                          {"n": int(d.size), "mean_z": float(d.mean())})
+    rep.count(f"pooled-dirichlet:{d.size}")
+    rep.count(f"pooled-normal:{z.size}")
+    rep.count(f"pooled-uniform:{u.size}")
